@@ -434,7 +434,6 @@ func runC10Case(c *c10Case) (fails []c10Fail, st c10Stats) {
 	return
 }
 
-
 // ---- family 2: real block-fetch messages streamed between two real endpoints -----------
 
 type c10BFCase struct {
